@@ -64,6 +64,9 @@ SegCells(w, L, j) ==
 RECURSIVE Segs(_, _, _)
 Segs(w, L, j) == IF j = NumSeg(L) THEN <<>> ELSE SegCells(w, L, j) \o Segs(w, L, j + 1)
 Stored(w, L) == HeaderCells(w) \o TinkCells(w) \o Segs(w, L, 0)
+StoredLen(L) == Base + Hdr + L + Tag * NumSeg(L)
+\* symbolic plaintext lengths: [full, extra] = "full" complete segments plus/minus extra bytes
+ClassLen(full, extra) == IF full = 0 THEN extra ELSE Pss0 + (full - 1) * Pss + extra
 \* 0-based offset of segment j inside the stored object
 RECURSIVE WSegOff(_, _)
 WSegOff(L, j) == IF j = 0 THEN Base + Hdr ELSE WSegOff(L, j - 1) + WLen(L, j - 1) + Tag
@@ -96,6 +99,10 @@ TruncLen(L, t) ==      \* number of cells kept by a "trunc" descriptor
     [] t.unit = "segstart1" -> WSegOff(L, t.j) + 1                   \* one byte of segment j survives
     [] t.unit = "segmid"    -> WSegOff(L, t.j) + Tag + 1                 \* mid-segment: tag+1 bytes of segment j survive
     [] t.unit = "lasttag"   -> Len(Stored("A", L)) - 1
+    \* cut to exactly the stored size of a SHORTER valid part: of plaintext length ClassLen(j, j2), or one byte less
+    \* than the smallest valid object (tink header + tag - 1)
+    [] t.unit = "aslen"     -> StoredLen(ClassLen(t.j, t.j2))
+    [] t.unit = "tagm1"     -> Base + Hdr + Tag - 1
 ExtendBy(t) == CASE t.unit = "one" -> 1 [] t.unit = "tag" -> Tag [] t.unit = "css" -> Css
 SegOf(S, L, j) == SubSeq(S, WSegOff(L, j) + 1, WSegOff(L, j) + WLen(L, j) + Tag)
 Before(S, L, j) == SubSeq(S, 1, WSegOff(L, j))
@@ -107,7 +114,8 @@ Applicable(L, t) ==
                           ELSE TRUE
     [] t.kind = "flipat"  -> t.j \in 1..Len(Stored("A", L))
     [] t.kind = "truncat" -> t.j \in 0..(Len(Stored("A", L)) - 1)
-    [] t.kind = "trunc" -> IF t.unit \in {"segstart", "segstart1"} THEN t.j \in 1..(NumSeg(L) - 1)
+    [] t.kind = "trunc" -> IF t.unit = "aslen" THEN t.j \in 0..3 /\ t.j2 \in {-1, 0, 1} /\ ClassLen(t.j, t.j2) >= 0 /\ ClassLen(t.j, t.j2) < L
+                           ELSE IF t.unit \in {"segstart", "segstart1"} THEN t.j \in 1..(NumSeg(L) - 1)
                            ELSE IF t.unit = "segmid" THEN t.j \in 0..(NumSeg(L) - 1) /\ WLen(L, t.j) >= 2
                            ELSE TRUE
     [] t.kind = "extend" -> TRUE
